@@ -34,13 +34,19 @@ type Decl struct {
 type Unit struct {
 	Name int `json:"n"`
 	ID   int `json:"id"`
+	// Rej: the unit carries the flag value the FINAL_OUTPUT xpath filter rejects (a target instance
+	// containing such a unit is completed and counted like any other, but not delivered)
+	Rej bool `json:"rej,omitempty"`
+	// Txt: EDI only: the escaped text of an extra element, as it is written into the input
+	Txt string `json:"txt,omitempty"`
 }
 
 // Inst is a delivered instance projected to (declaration name, unit ids, child instances).
 type Inst struct {
-	Name int     `json:"name"`
-	IDs  []int   `json:"ids,omitempty"`
-	Kids []*Inst `json:"kids,omitempty"`
+	Name int      `json:"name"`
+	IDs  []int    `json:"ids,omitempty"`
+	X    []string `json:"x,omitempty"` // EDI: the unescaped text element of every unit taken
+	Kids []*Inst  `json:"kids,omitempty"`
 }
 
 // Result is what a run produced: the deliveries in order and the terminal class.
@@ -56,8 +62,13 @@ type Result struct {
 }
 
 func instEq(a, b *Inst) bool {
-	if a.Name != b.Name || len(a.IDs) != len(b.IDs) || len(a.Kids) != len(b.Kids) {
+	if a.Name != b.Name || len(a.IDs) != len(b.IDs) || len(a.Kids) != len(b.Kids) || len(a.X) != len(b.X) {
 		return false
+	}
+	for i := range a.X {
+		if a.X[i] != b.X[i] {
+			return false
+		}
 	}
 	for i := range a.IDs {
 		if a.IDs[i] != b.IDs[i] {
@@ -130,9 +141,11 @@ type specErr struct {
 }
 
 type specRun struct {
-	deliv []*Inst
-	pops  int
-	steps int
+	deliv   []*Inst
+	pops    int
+	steps   int
+	withTxt bool // EDI: instances carry the unescaped text of their units
+	relChar bool // the text is escaped with the release character
 }
 
 func starts(d *Decl, us []Unit) bool {
@@ -151,6 +164,9 @@ func (s *specRun) inst(d *Decl, us []Unit) (*Inst, []Unit, *specErr) {
 		}
 		for _, u := range us[:n] {
 			in.IDs = append(in.IDs, u.ID)
+			if s.withTxt {
+				in.X = append(in.X, unescapeTxt(u.Txt, s.relChar))
+			}
 		}
 		us = us[n:]
 	}
@@ -201,8 +217,66 @@ func (s *specRun) seq(ds []*Decl, us []Unit) ([]*Inst, []Unit, *specErr) {
 	return out, us, nil
 }
 
+// unescapeTxt: release character '?' followed by any character stands for that character
+func unescapeTxt(t string, relChar bool) string {
+	if !relChar {
+		return t
+	}
+	var sb strings.Builder
+	for i := 0; i < len(t); i++ {
+		if t[i] == '?' && i+1 < len(t) {
+			i++
+		}
+		sb.WriteByte(t[i])
+	}
+	return sb.String()
+}
+
+// hasRejected: does the instance contain (at any depth) a unit the filter rejects
+func hasRejected(in *Inst, rej map[int]bool) bool {
+	for _, id := range in.IDs {
+		if rej[id] {
+			return true
+		}
+	}
+	for _, k := range in.Kids {
+		if hasRejected(k, rej) {
+			return true
+		}
+	}
+	return false
+}
+
+// goSpecCase: the documented matcher for a case: with a FINAL_OUTPUT filter, the deliveries are
+// the matcher's deliveries minus the rejected ones; everything else (counting, max, terminal
+// result) is untouched.
+func goSpecCase(c *Case, ds []*Decl) *Result {
+	s := &specRun{withTxt: c.Driver == "edi", relChar: c.RelChar}
+	r := s.run(ds, c.Units)
+	if c.Filter {
+		rej := map[int]bool{}
+		for _, u := range c.Units {
+			if u.Rej {
+				rej[u.ID] = true
+			}
+		}
+		var kept []*Inst
+		for _, d := range r.Deliv {
+			if !hasRejected(d, rej) {
+				kept = append(kept, d)
+			}
+		}
+		r.Deliv = kept
+	}
+	return r
+}
+
 func goSpec(ds []*Decl, us []Unit) *Result {
 	s := &specRun{}
+	return s.run(ds, us)
+}
+
+func (s *specRun) run(ds []*Decl, us []Unit) *Result {
 	_, rest, err := s.seq(ds, us)
 	r := &Result{Deliv: s.deliv, Pops: s.pops}
 	switch {
@@ -319,6 +393,19 @@ func coqUnits(us []Unit) string {
 	xs := make([]string, len(us))
 	for i, u := range us {
 		xs[i] = fmt.Sprintf("U %d %d", u.Name, u.ID)
+	}
+	return vh.CoqList(xs)
+}
+
+// coqRej: the ids of the units the filter rejects (empty without a filter)
+func coqRej(c *Case) string {
+	var xs []string
+	if c.Filter {
+		for _, u := range c.Units {
+			if u.Rej {
+				xs = append(xs, fmt.Sprint(u.ID))
+			}
+		}
 	}
 	return vh.CoqList(xs)
 }
